@@ -5,6 +5,7 @@
 package controls
 
 import (
+	"os"
 	"errors"
 	"net/http"
 	"sync"
@@ -117,3 +118,10 @@ func GoodHandler(w http.ResponseWriter, r *http.Request) {
 	operate()
 	w.WriteHeader(http.StatusOK)
 }
+
+// who-may-call control: a flat remove of a directory (fails on a non-empty
+// one) next to the recursive form.
+func RemovesFlat(dir string) { os.Remove(dir) }
+
+// who-may-call control (negative).
+func RemovesTree(dir string) { os.RemoveAll(dir) }
